@@ -13,6 +13,8 @@ import (
 	sdk "github.com/cosmos/cosmos-sdk/types"
 )
 
+var firstHistory *int
+
 func envSeed() int64 {
 	if s := os.Getenv("VERIF_SEED"); s != "" {
 		if v, err := strconv.ParseInt(s, 10, 64); err == nil {
@@ -83,6 +85,8 @@ func main() {
 	n := fs.Int("n", 100, "number of histories / cases")
 	depth := fs.Int("depth", 50, "history length")
 	iavl := fs.Bool("iavl", false, "IAVL-backed stores with a commit per transaction")
+	first := fs.Int("first", 1, "first history number (replays)")
+	firstHistory = first
 	fs.Parse(os.Args[2:])
 	tab := NewSymTab(seed, ModuleAddress, prefix)
 	var rd *os.File = os.Stdin
